@@ -202,7 +202,7 @@ theorem plainSection_of_normal (ho : NormalRunOpts o name pname) (hs0 : CleanSta
     ∃ patch0 info par1 par2 r,
       PlainSection o (forcedN o) (loopStart s0 (hs.flatMap hunkLinesN)) name bytes m patch0
         { patch0 with hunks := hs } info par1 par2 r ∧
-      render o.newlineOutput r.out = renderLines o.newlineOutput (splice (splitLines bytes) 0 hs) ∧
+      render o.newlineOutput r.out = Render.renderText o.newlineOutput (splice (splitLines bytes) 0 hs) ∧
       par2.s.eof = true := by
   have hfmt : forcedN o = .unknown ∨ forcedN o = .normal := by
     unfold forcedN; split
@@ -245,7 +245,7 @@ theorem C01_run_normal (o : Options) (s0 : DState) (name pname bytes : Bytes) (m
     (hpatch : s0.fs.lookup pname = some (.file (normalDiffText hs) pm))
     (hd : NormalDiff hs) (hvalid : Valid (splitLines bytes) 0 0 hs) :
     (runPatch o s0).1 = 0 ∧
-    (runPatch o s0).2.fs.lookup name = some (.file (renderLines o.newlineOutput (splice (splitLines bytes) 0 hs)) m) ∧
+    (runPatch o s0).2.fs.lookup name = some (.file (Render.renderText o.newlineOutput (splice (splitLines bytes) 0 hs)) m) ∧
     ∀ q, q ≠ name → (runPatch o s0).2.fs.lookup q = s0.fs.lookup q := by
   obtain ⟨patch0, info, par1, par2, r, H, hrender, heof⟩ := plainSection_of_normal ho hs0 hname htarget hw hd hvalid
   obtain ⟨s', hrun, hfs, _, hdone⟩ := processSection_clean H hreal hdir
@@ -278,7 +278,7 @@ theorem C01_run_normal_flat (o : Options) (s0 : DState) (name pname bytes : Byte
     (hpatch : s0.fs.lookup pname = some (.file (normalDiffText hs) pm))
     (hd : NormalDiff hs) (hvalid : Valid (splitLines bytes) 0 0 hs) :
     (runPatch o s0).1 = 0 ∧
-    (runPatch o s0).2.fs.lookup name = some (.file (renderLines o.newlineOutput (splice (splitLines bytes) 0 hs)) m) ∧
+    (runPatch o s0).2.fs.lookup name = some (.file (Render.renderText o.newlineOutput (splice (splitLines bytes) 0 hs)) m) ∧
     ∀ q, q ≠ name → (runPatch o s0).2.fs.lookup q = s0.fs.lookup q :=
   C01_run_normal o s0 name pname bytes m pm hs ho hreal hs0 hname (dirExists_parent_of_noSlash s0.fs hflat) hpn hpd htarget hw
     hpatch hd hvalid
@@ -318,11 +318,11 @@ variable {o : Options} {s0 : DState} {name pname bytes : Bytes} {m pm : Nat} {hs
 theorem topSection_of_normal (ho : NormalRunOpts o name pname) (hs0 : CleanStart s0) (hname : name ≠ [])
     (htarget : s0.fs.lookup name = some (.file bytes m)) (hw : m &&& writeMask ≠ 0)
     (hd : NormalDiffTop hs) (hvalid : Valid (splitLines bytes) 0 0 hs)
-    (hkeep : o.removeEmptyFiles ≠ .yes ∨ renderLines o.newlineOutput (splice (splitLines bytes) 0 hs) ≠ []) :
+    (hkeep : o.removeEmptyFiles ≠ .yes ∨ Render.renderText o.newlineOutput (splice (splitLines bytes) 0 hs) ≠ []) :
     ∃ patch0 info par1 par2 r,
       TopSection o (forcedN o) (loopStart s0 (hs.flatMap hunkLinesN)) name bytes m patch0
         { patch0 with hunks := hs } info par1 par2 r ∧
-      render o.newlineOutput r.out = renderLines o.newlineOutput (splice (splitLines bytes) 0 hs) ∧
+      render o.newlineOutput r.out = Render.renderText o.newlineOutput (splice (splitLines bytes) 0 hs) ∧
       par2.s.eof = true := by
   have hfmt : forcedN o = .unknown ∨ forcedN o = .normal := by
     unfold forcedN; split
@@ -336,8 +336,8 @@ theorem topSection_of_normal (ho : NormalRunOpts o name pname) (hs0 : CleanStart
     applyPatch_valid (splitLines bytes) hs { patch0 with hunks := hs } (applyOptsOf o)
       (Option.map (fun l => List.map (fun a => !List.isEmpty a && List.head? a != some 110) l) s0.tty)
       hvalid (by rw [hrev]; rfl) ho.plain.noDefine ho.plain.fuzz
-  have hrender : render o.newlineOutput r.out = renderLines o.newlineOutput (splice (splitLines bytes) 0 hs) := by
-    rw [render, hrout]
+  have hrender : render o.newlineOutput r.out = Render.renderText o.newlineOutput (splice (splitLines bytes) 0 hs) := by
+    exact C01.render_of_lines _ ho.plain.noDefine hap hrout
   refine ⟨patch0, info, par1, par2, r, ?_, hrender, heof⟩
   exact {
     operand := ho.plain.operand, noOut := ho.plain.noOut, noBackup := ho.plain.noBackup, pathNe := hname, cwd := hs0.cwd,
@@ -350,7 +350,7 @@ theorem topSection_of_normal (ho : NormalRunOpts o name pname) (hs0 : CleanStart
       rw [hrender]
       rcases hkeep with h | h
       · exact absurd (by simpa using hE) h
-      · cases hx : renderLines o.newlineOutput (splice (splitLines bytes) 0 hs) with
+      · cases hx : Render.renderText o.newlineOutput (splice (splitLines bytes) 0 hs) with
         | nil => exact absurd hx h
         | cons _ _ => rfl }
 
@@ -365,9 +365,9 @@ theorem C01_run_normal_top (o : Options) (s0 : DState) (name pname bytes : Bytes
     (htarget : s0.fs.lookup name = some (.file bytes m)) (hw : m &&& writeMask ≠ 0)
     (hpatch : s0.fs.lookup pname = some (.file (normalDiffText hs) pm))
     (hd : NormalDiffTop hs) (hvalid : Valid (splitLines bytes) 0 0 hs)
-    (hkeep : o.removeEmptyFiles ≠ .yes ∨ renderLines o.newlineOutput (splice (splitLines bytes) 0 hs) ≠ []) :
+    (hkeep : o.removeEmptyFiles ≠ .yes ∨ Render.renderText o.newlineOutput (splice (splitLines bytes) 0 hs) ≠ []) :
     (runPatch o s0).1 = 0 ∧
-    (runPatch o s0).2.fs.lookup name = some (.file (renderLines o.newlineOutput (splice (splitLines bytes) 0 hs)) m) ∧
+    (runPatch o s0).2.fs.lookup name = some (.file (Render.renderText o.newlineOutput (splice (splitLines bytes) 0 hs)) m) ∧
     ∀ q, q ≠ name → (runPatch o s0).2.fs.lookup q = s0.fs.lookup q := by
   obtain ⟨patch0, info, par1, par2, r, H, hrender, heof⟩ := topSection_of_normal ho hs0 hname htarget hw hd hvalid hkeep
   obtain ⟨s', hrun, hfs, hdone⟩ := processSection_top H hreal hdir
@@ -386,7 +386,7 @@ theorem C15_run_normal_top_dry (o : Options) (s0 : DState) (name pname bytes : B
     (htarget : s0.fs.lookup name = some (.file bytes m)) (hw : m &&& writeMask ≠ 0)
     (hpatch : s0.fs.lookup pname = some (.file (normalDiffText hs) pm))
     (hd : NormalDiffTop hs) (hvalid : Valid (splitLines bytes) 0 0 hs)
-    (hkeep : o.removeEmptyFiles ≠ .yes ∨ renderLines o.newlineOutput (splice (splitLines bytes) 0 hs) ≠ []) :
+    (hkeep : o.removeEmptyFiles ≠ .yes ∨ Render.renderText o.newlineOutput (splice (splitLines bytes) 0 hs) ≠ []) :
     (runPatch o s0).1 = 0 ∧ (runPatch o s0).2.fs = s0.fs := by
   obtain ⟨patch0, info, par1, par2, r, H, _, heof⟩ := topSection_of_normal ho hs0 hname htarget hw hd hvalid hkeep
   obtain ⟨s', hrun, hfs, hdone⟩ := processSection_top_dry H hdry
@@ -436,7 +436,7 @@ theorem applies_c :
     ∀ q, q ≠ name → (runPatch o (mk bytes [hc])).2.fs.lookup q = (mk bytes [hc]).fs.lookup q := by
   have h := C01_run_normal o (mk bytes [hc]) name pname bytes 0o644 0o644 [hc] runOpts rfl ⟨rfl, rfl, rfl, rfl, rfl, rfl⟩
     (by decide) (by decide) (by decide) (by decide) rfl (by decide) rfl diff_c (validB_sound _ _ _ _ (by decide))
-  have hm : renderLines o.newlineOutput (splice (splitLines bytes) 0 [hc]) = [97, 10, 66, 10, 99, 10] := by decide
+  have hm : Render.renderText o.newlineOutput (splice (splitLines bytes) 0 [hc]) = [97, 10, 66, 10, 99, 10] := by decide
   rw [hm] at h
   exact h
 
@@ -447,7 +447,7 @@ theorem applies_d :
     ∀ q, q ≠ name → (runPatch o (mk bytes [hd])).2.fs.lookup q = (mk bytes [hd]).fs.lookup q := by
   have h := C01_run_normal o (mk bytes [hd]) name pname bytes 0o644 0o644 [hd] runOpts rfl ⟨rfl, rfl, rfl, rfl, rfl, rfl⟩
     (by decide) (by decide) (by decide) (by decide) rfl (by decide) rfl diff_d (validB_sound _ _ _ _ (by decide))
-  have hm : renderLines o.newlineOutput (splice (splitLines bytes) 0 [hd]) = [97, 10, 99, 10] := by decide
+  have hm : Render.renderText o.newlineOutput (splice (splitLines bytes) 0 [hd]) = [97, 10, 99, 10] := by decide
   rw [hm] at h
   exact h
 
@@ -458,7 +458,7 @@ theorem applies_a :
     ∀ q, q ≠ name → (runPatch o (mk bytes [ha])).2.fs.lookup q = (mk bytes [ha]).fs.lookup q := by
   have h := C01_run_normal o (mk bytes [ha]) name pname bytes 0o644 0o644 [ha] runOpts rfl ⟨rfl, rfl, rfl, rfl, rfl, rfl⟩
     (by decide) (by decide) (by decide) (by decide) rfl (by decide) rfl diff_a (validB_sound _ _ _ _ (by decide))
-  have hm : renderLines o.newlineOutput (splice (splitLines bytes) 0 [ha]) = [97, 10, 98, 10, 120, 10, 121, 10, 99, 10] := by
+  have hm : Render.renderText o.newlineOutput (splice (splitLines bytes) 0 [ha]) = [97, 10, 98, 10, 120, 10, 121, 10, 99, 10] := by
     decide
   rw [hm] at h
   exact h
@@ -491,7 +491,7 @@ theorem applies_all :
   have h := C01_run_normal o (mk bytes8 [m1, m2, m3]) name pname bytes8 0o644 0o644 [m1, m2, m3] runOpts rfl
     ⟨rfl, rfl, rfl, rfl, rfl, rfl⟩ (by decide) (by decide) (by decide) (by decide) rfl (by decide) rfl
     { nonEmpty := by decide, hunks := by decide, change := by decide } (validB_sound _ _ _ _ (by decide))
-  have hm : renderLines o.newlineOutput (splice (splitLines bytes8) 0 [m1, m2, m3]) = result8 := by decide
+  have hm : Render.renderText o.newlineOutput (splice (splitLines bytes8) 0 [m1, m2, m3]) = result8 := by decide
   rw [hm] at h
   exact h
 
@@ -505,7 +505,7 @@ theorem applies_noNewline :
   have h := C01_run_normal o (mk [97, 10, 98] [hn]) name pname [97, 10, 98] 0o644 0o644 [hn] runOpts rfl
     ⟨rfl, rfl, rfl, rfl, rfl, rfl⟩ (by decide) (by decide) (by decide) (by decide) rfl (by decide) rfl
     { nonEmpty := by decide, hunks := by decide, change := by decide } (validB_sound _ _ _ _ (by decide))
-  have hm : renderLines o.newlineOutput (splice (splitLines [97, 10, 98]) 0 [hn]) = [97, 10, 66, 10] := by decide
+  have hm : Render.renderText o.newlineOutput (splice (splitLines [97, 10, 98]) 0 [hn]) = [97, 10, 66, 10] := by decide
   rw [hm] at h
   exact ⟨h.1, h.2.1⟩
 
@@ -565,7 +565,7 @@ theorem top_applies :
     (runPatch oE (mk bytes [top, top2])).1 = 0 ∧
     (runPatch oE (mk bytes [top, top2])).2.fs.lookup name = some (.file [98, 10, 67, 10] 0o644) ∧
     ∀ q, q ≠ name → (runPatch oE (mk bytes [top, top2])).2.fs.lookup q = (mk bytes [top, top2]).fs.lookup q := by
-  have hm : renderLines oE.newlineOutput (splice (splitLines bytes) 0 [top, top2]) = [98, 10, 67, 10] := by decide
+  have hm : Render.renderText oE.newlineOutput (splice (splitLines bytes) 0 [top, top2]) = [98, 10, 67, 10] := by decide
   have h := C01_run_normal_top oE (mk bytes [top, top2]) name pname bytes 0o644 0o644 [top, top2]
     { plain := { operand := rfl, noOut := rfl, noBackup := rfl, noReverse := rfl, noDefine := rfl, fuzz := by decide, quiet := rfl },
       file := { patchFile := rfl, noDir := rfl, noHelp := rfl, noVersion := rfl, noContext := rfl, noUnified := rfl, noEd := rfl } }
@@ -591,7 +591,7 @@ def all : Hunk := ⟨⟨1, 3⟩, ⟨0, 0⟩, [⟨MINUS, ⟨[97], .lf⟩⟩, ⟨M
 
 theorem all_applies :
     (runPatch o (mk bytes [all])).1 = 0 ∧ (runPatch o (mk bytes [all])).2.fs.lookup name = some (.file [] 0o644) := by
-  have hm : renderLines o.newlineOutput (splice (splitLines bytes) 0 [all]) = [] := by decide
+  have hm : Render.renderText o.newlineOutput (splice (splitLines bytes) 0 [all]) = [] := by decide
   have h := C01_run_normal_top o (mk bytes [all]) name pname bytes 0o644 0o644 [all] runOpts
     rfl ⟨rfl, rfl, rfl, rfl, rfl, rfl⟩ (by decide) (by decide) (by decide) (by decide) rfl (by decide) rfl
     { hunks := by decide, top := by decide } (validB_sound _ _ _ _ (by decide)) (Or.inl (by decide))
@@ -638,7 +638,7 @@ theorem crlf_applies :
       file := { patchFile := rfl, noDir := rfl, noHelp := rfl, noVersion := rfl, noContext := rfl, noUnified := rfl, noEd := rfl } }
     rfl ⟨rfl, rfl, rfl, rfl, rfl, rfl⟩ (by decide) (by decide) (by decide) (by decide) rfl (by decide) rfl
     { nonEmpty := by decide, hunks := by decide, change := by decide } (validB_sound _ _ _ _ (by decide))
-  have hm : renderLines NewlineOutput.keep (splice (splitLines [97, 13, 10, 98, 13, 10]) 0 [crlf]) =
+  have hm : Render.renderText NewlineOutput.keep (splice (splitLines [97, 13, 10, 98, 13, 10]) 0 [crlf]) =
       [97, 13, 10, 66, 13, 10] := by decide
   exact ⟨h.1, by rw [← hm]; exact h.2.1⟩
 
